@@ -46,3 +46,12 @@ def c08_scalar_zero_divisor(case, result):
         return False
     b = case.get('b')
     return isinstance(b, dict) and b.get('N', None) == 0 and 'N' in b and result.get('status') == 'ok'
+
+def c18_kwargs_support_varkw(case, result):
+    # kwargs_support somewhere in the stack, the wrapped function declares **kwargs, the (valid) call passes a keyword the
+    # function does not declare by name, and the only deviation is that this keyword did not reach the function
+    if case.get('kind') != 'stack' or 'kwargs_support' not in case.get('decos', []) or not case.get('vk'):
+        return False
+    declared = ['a', 'b', 'c', 'd'][:case['npos']]
+    return any(k not in declared for k, _ in case.get('kw', [])) and bool(result.get('kws_finding')) \
+        and (result.get('viol') or '').startswith('kwargs_support dropped the undeclared keyword')
